@@ -410,6 +410,31 @@ def joined_is_collinear(ck, rule):
             name = par.targets[0].id
             rets = [r for r in ast.walk(fn.node) if isinstance(r, ast.Return) and isinstance(r.value, ast.Name) and r.value.id == name]
             if not rets:
+                # `return joined if joined.<test>() else None`
+                cond_rets = [r for r in ast.walk(fn.node) if isinstance(r, ast.Return) and isinstance(r.value, ast.IfExp)
+                             and isinstance(r.value.body, ast.Name) and r.value.body.id == name
+                             and (r.value.orelse is None or (isinstance(r.value.orelse, ast.Constant) and r.value.orelse.value is None))
+                             and isinstance(r.value.test, ast.Call) and isinstance(r.value.test.func, ast.Attribute)
+                             and isinstance(r.value.test.func.value, ast.Name) and r.value.test.func.value.id == name]
+                if cond_rets:
+                    from ..loader import mangle as _mg
+                    g0 = cond_rets[0].value.test
+                    helper0 = p.lookup_method(row, _mg(g0.func.attr, row.name), None) or p.lookup_method(row, g0.func.attr, None)
+                    if helper0 is not None and monotone_test(helper0):
+                        ck.ok(rule, construct, where(fn, cond_rets[0]), f"handed back only when {helper0.name} holds (conditional expression)")
+                        continue
+                    raise AnalysisError(f"{where(fn, cond_rets[0])}: the test of the joined record is not recognised")
+                # positively recognised: what is handed back under the test is not the record that was tested
+                derived = [r for r in ast.walk(fn.node) if isinstance(r, ast.Return) and r.value is not None and not isinstance(r.value, ast.Name)
+                           and any(isinstance(y, ast.Name) and y.id == name for y in ast.walk(r.value))]
+                if derived:
+                    ck.violation(rule, construct, where(fn, derived[0]),
+                                 f"the record that is tested (`{name}`) is not the record that is handed back: another record is derived "
+                                 "from it AFTER the test - what is added or re-ordered then (further segments of the parts that were "
+                                 "never resolved against the other part) has not been tested, and the joined record can repeat labels "
+                                 "and run backwards again", found=ast.unparse(derived[0])[:160],
+                                 required=f"return {name} (the tested record itself)")
+                    continue
                 raise AnalysisError(f"{w}: where the joined record `{name}` is handed back was not found")
             for r in rets:
                 guard = None
@@ -417,11 +442,27 @@ def joined_is_collinear(ck, rule):
                 while cur in parents and parents[cur] is not fn.node:
                     if isinstance(parents[cur], ast.If) and any(cur is b for b in parents[cur].body):
                         t = parents[cur].test
-                        for x in ast.walk(t):
+                        # the test has to IMPLY the call: the call itself or a conjunct of it - an alternative joined with `or`
+                        # lets the record through without it
+                        conj = list(t.values) if isinstance(t, ast.BoolOp) and isinstance(t.op, ast.And) else [t]
+                        for x in conj:
                             if isinstance(x, ast.Call) and isinstance(x.func, ast.Attribute) and isinstance(x.func.value, ast.Name) \
                                     and x.func.value.id == name:
                                 guard = x
+                        if guard is None and isinstance(t, ast.BoolOp) and isinstance(t.op, ast.Or) and any(
+                                isinstance(x, ast.Call) and isinstance(x.func, ast.Attribute) and isinstance(x.func.value, ast.Name)
+                                and x.func.value.id == name for x in t.values):
+                            ck.violation(rule, construct, where(fn, r),
+                                         "the test of the joined record is one alternative of an `or`: whenever the other alternative holds "
+                                         "the record is handed back untested - a coarse comparison of the parts' header coordinates is no "
+                                         "substitute (on '-' the header holds mirrored coordinates that ascend along the reference: the "
+                                         "comparison is inverted there and lets exactly the swapped parts through)",
+                                         found=ast.unparse(t)[:160], required="the pair-by-pair test alone (or in conjunction with further tests)")
+                            guard = False
+                            break
                     cur = parents[cur]
+                if guard is False:
+                    continue
                 if guard is None:
                     # `if not joined.<test>(): return None` in front of the return, in the same block
                     blk = parents.get(r)
